@@ -11,7 +11,7 @@ case split the property states.
 
 from __future__ import annotations
 
-from vkit.framework import Prop
+from vkit.framework import Prop, pick
 from vkit.props import lockstep
 
 
@@ -48,12 +48,14 @@ class C09(Prop):
             for k in divisors(w):
                 for h in hists:
                     for method in ('eigen', 'eigen-prediv', 'inverse'):
-                        i += 1
-                        if tier == 'quick' and w == 2 and i % 2:
-                            continue
-                        out.append({'harness': 'lockstep', 'world': w, 'k': k, 'ops': h, 'method': method,
-                                    'hp': 'callable' if i % 3 == 0 else 'const', 'intervals': 'callable' if i % 3 == 0 else 'sym',
-                                    'hook': bool(i % 2), 'acc': 1, 'model': ['lin', 'two', 'conv'][i % 3], 'clip': False,
+                        for hp in ('const', 'callable'):
+                          i += 1
+                          if tier == 'quick' and not pick((w, k, h, method, hp), 6, seed):
+                              continue
+                          out.append({'harness': 'lockstep', 'world': w, 'k': k, 'ops': h, 'method': method,
+                                    'hp': hp, 'intervals': 'callable' if hp == 'callable' else 'sym',
+                                    'hook': pick((i, 'hook'), 2), 'acc': 1,
+                                    'model': ['lin', 'two' if tier == 'thorough' else 'lin-nb', 'conv'][i % 3], 'clip': False,
                                     'init': 'arbitrary', 'colocate': True})
         # boundary 0: a freshly constructed object is checkpointed before any step
         for method in ('eigen', 'inverse'):
